@@ -87,7 +87,7 @@ def r2_recording(ctx, prog):
 
     def run_null(keys):
         log = []
-        dl = CF("Locale", keys=L(T(S("x"), A("vx")), T(S("y"), A("vy"))), name=S("en"), top_locale_name=S("en"))
+        dl = CF("Locale", keys=L(T(S("x"), A("vx")), T(S("y"), A("vy"))), name=S("grp"), top_locale_name=S("en"))
         funcs = {k: v for k, v in absint.file_funcs(ctx.ast, PV, impl_self="ParsedValue").items() if k not in ("merge", "reduce")}
         ev = AEval(funcs=funcs, builtins={
             "push": lambda rv, a: (log.append(("push", rv, tuple(a))), UNIT)[1],
@@ -346,7 +346,14 @@ def run(ctx):
     r7 = borrow(k0, "C03.R7", "the configured `inherits` table reaches the merge unchanged",
                 "`walking from the locale itself through its inherits chain ... when the chain ends or loops, the default`: fallback is per key, "
                 "so an entry dropped or rewritten when the configuration is loaded (e.g. cycles resolved once) changes which locale defines a key", only=r"inherits", floor=1)
-    return [r1, r2_recording(ctx, prog), r3_walk(ctx, prog), r4_generators(ctx), r5_default_never_defaults(ctx), r6_single_fallback(ctx, prog), r7]
+    # `when the chain ends or loops, the default locale's value is used`: the locale a walk ends on is the one every key was built
+    # with - the make_builder_keys clause of C07.R3 (the top locale's name, also inside sub-key groups; rules/c07.py)
+    from rules import c07
+    r8 = borrow(c07.r3_accessors(ctx), "C03.R8", "every key's fallback of last resort is the default locale, also inside sub-key groups",
+                "`the rule is applied per key, uniformly for every value kind including whole subkey groups`: the locale returned when a chain ends "
+                "or loops is stored per key when the default locale's keys are built; inside a group the Locale at hand is the group, not the locale",
+                only=r"make_builder_keys", floor=1)
+    return [r1, r2_recording(ctx, prog), r3_walk(ctx, prog), r4_generators(ctx), r5_default_never_defaults(ctx), r6_single_fallback(ctx, prog), r7, r8]
 
 
 MANIFEST_ENTRY = {
